@@ -26,6 +26,7 @@ fn drive(pb: ProgressBar, c: &Case) -> Vec<String> {
                 BOp::Println(m) => p.println(m), BOp::Suspend(_) => p.suspend(|| {}), BOp::Reset => p.reset(),
                 BOp::Finish(f) => match f { Fin::Leave => p.finish(), Fin::Clear => p.finish_and_clear(), Fin::Abandon => p.abandon(), Fin::Msg(m) => p.finish_with_message(m.clone()), Fin::AbandonMsg(m) => p.abandon_with_message(m.clone()) },
                 BOp::FinishStyle => p.finish_using_style(),
+                BOp::Iter(n) => { for _ in p.wrap_iter(0..*n) {} }
                 BOp::Drop => { pb = None; out.push("dropped".into()); continue; }
             }
             out.push(getters(p));
@@ -64,7 +65,7 @@ pub fn run(seed: u64, tier: &str, out: &mut Out) {
     let mut rng = Rng::new(seed);
     for i in 0..n {
         let c = bar::gen_case(&mut rng, false);
-        let case = bar::encode(&c);
+        let case = bar::encode(&c, &c.ops.iter().map(|o| o.enc()).collect::<Vec<_>>());
         let mut verdict = String::from("ok");
         // visible twin
         let rec = Recorder::new(c.h, c.w, false);
